@@ -145,6 +145,33 @@ template<class K, class V, class PGMType> void dyn_reject_case(Ctx &c) {
     int base = r.pick<int>({2, 4, 8, 16}), bl = int(r.below(3)), il = bl ? bl + 1 : 0;
     switch (sub) {
         case 0: { // unsorted pair at every position of a bulk-load range of length L
+            if constexpr (sizeof(K) >= 4) {
+                if ((c.case_idx / 5) % 10 == 9) {
+                    // a long range (several blocks of any plausible block size) with ONE descent, placed at the positions a
+                    // block-wise or chunk-wise order check would look at last: around every multiple of 4096 and of every
+                    // power of two, at both ends, and at a few random places
+                    size_t L = 70000 + r.below(c.thorough() ? 400000 : 140000);
+                    c.traits = "unsorted_bulk_long,len=" + std::to_string(L);
+                    std::vector<std::pair<K, V>> v(L);
+                    K k = K(r.below(50));
+                    for (size_t i = 0; i < L; ++i) { v[i] = {k, V(r.below(1000))}; k = K(k + K(1 + r.below(3))); }
+                    std::vector<size_t> at{0, 1, L - 2, L - 3, r.below(L - 1), r.below(L - 1), r.below(L - 1)};
+                    for (size_t b = 256; b < L; b *= 2) { at.push_back(b - 1); at.push_back(b); at.push_back(b - 2); }
+                    for (size_t m = 4096; m + 1 < L; m += 4096 * (1 + r.below(4))) { at.push_back(m - 1); if (r.chance(1, 4)) at.push_back(m); }
+                    for (size_t m = 65536; m + 1 < L; m += 65536) { at.push_back(m - 1); at.push_back(m); at.push_back(m - 2); }
+                    uint64_t tried = 0;
+                    for (size_t pos : at) {
+                        if (pos + 1 >= L) continue;
+                        std::swap(v[pos].first, v[pos + 1].first); // exactly one descent
+                        Outcome o = outcome_of([&] { Dyn x(v.begin(), v.end(), uint8_t(base), uint8_t(bl), uint8_t(il)); (void) x; });
+                        expect(c, o, INVALID_ARGUMENT, "unsorted_bulk_load_not_rejected", J().num("length", L).num("descent_at", pos));
+                        std::swap(v[pos].first, v[pos + 1].first);
+                        ++tried;
+                    }
+                    c.count("long_unsorted_ranges_tried", tried);
+                    break;
+                }
+            }
             size_t L = 2 + (c.case_idx / 5) % 39;
             c.traits = "unsorted_bulk,len=" + std::to_string(L);
             auto v = sorted_pairs(L);
